@@ -516,7 +516,10 @@ def model_line(job, it, obs):
         return 10, a
     if k == "onobj":
         o = O[str(it["vid"])]
-        return 11, pose_block(ego) + ego["dims"] + O["0"]["q"] + o["pos"] + o["q"] + it["dims"]
+        # the face of X the object was put on: the one whose outward normal is the new object's up axis
+        axes, nup = axes_from_corners(O["0"]["corners"]), axes_from_corners(o["corners"])[2]
+        it["face"] = max(range(6), key=lambda d: dot(outward(axes, d), nup))
+        return 11, pose_block(ego) + ego["dims"] + O["0"]["q"] + o["pos"] + o["q"] + it["dims"] + [it["face"]]
     if k == "onpt":
         o = O[str(it["vid"])]
         base = it["base"] if it["base"] is not None else [0.0, 0.0, -it["dims"][2] / 2]
@@ -679,7 +682,7 @@ def evaluate(c, job, it, obs, m):
                 corr("(yaw, pitch) chosen by `facing directly ...` are not the spherical angles of the line of sight in the parent frame", o["ypr"], m[9:12])
             if not it["directly"] and o["ypr"][1] != 0.0:
                 oracle("facing", "`facing toward` changed pitch", impl=o["ypr"])
-            if not close(o["ypr"][2], it["roll"]):
+            if not close(norm_angle(o["ypr"][2] - it["roll"]), 0.0):
                 oracle("facing", "`facing ... toward` changed roll", impl=o["ypr"])
             # oracle on the implementation's own values: forward axis vs line of sight
             fwd = unit(sub(o["corners"][0], o["corners"][3]))
@@ -823,29 +826,34 @@ def evaluate(c, job, it, obs, m):
         if not qclose(m[0:4], ego_i["q"]):
             corr("orientation of ego", ego_i["q"], m[0:4])
         axes, naxes = axes_from_corners(ego_i["corners"]), axes_from_corners(o["corners"])
-        up = axes[2]
+        d, a = it["face"], it["face"] // 2
+        up = outward(axes, d)
         gap = gap_from_corners(up, ego_i["corners"], o["corners"])
         if not close(m[4], gap, 50):
-            corr("gap between the corner sets along X's up axis", gap, m[4])
+            corr("gap between the corner sets along the normal of X's face", gap, m[4])
         loc = [dot(ax, sub(o["pos"], ego_i["pos"])) for ax in axes]
         if not vclose(m[5:8], loc, 50):
             corr("centre of the new object in X's frame", loc, m[5:8])
+        if not vclose(m[11:14], up):
+            corr("outward normal of X's face", up, m[11:14])
         if not vclose(m[8:11], [0, 0, 0]) or not vclose(naxes[2], up):
-            oracle("on", "`on <Object>`: the new object's up axis is not the normal of X's top face", impl=naxes[2], documented=up)
+            oracle("on", "`on <Object>`: the new object's up axis is not the normal of a face of X", impl=naxes[2], documented=up)
+        if up[2] < 0.5 - 1e-9:
+            oracle("on", "`on <Object>`: the face used is not part of X's top surface (normal with z component >= 0.5)", impl=up)
         base = it["base"] if it["base"] is not None else [0.0, 0.0, -it["dims"][2] / 2]
         if not vclose(o["base"], base):
             oracle("on", "baseOffset is not the documented default (0,0,-height/2) / the given one", impl=o["base"], documented=base)
         bp = [o["pos"][j] + sum(base[i] * naxes[i][j] for i in range(3)) for j in range(3)]
-        h = dot(up, sub(bp, ego_i["pos"])) - job["ego"]["dims"][2] / 2
+        h = dot(up, sub(bp, ego_i["pos"])) - job["ego"]["dims"][a] / 2
         if not close(h, it["ct"] / 2, 50):
-            oracle("on", f"`on <Object>`: the base point of the new object is {h!r} above X's top face, documented contactTolerance/2 = {it['ct'] / 2!r}",
+            oracle("on", f"`on <Object>`: the base point of the new object is {h!r} above X's face, documented contactTolerance/2 = {it['ct'] / 2!r}",
                    got=h, documented=it["ct"] / 2)
         if it["base"] is None and not close(gap, it["ct"] / 2, 50):
-            oracle("gap", f"`on <Object>` leaves a gap of {gap!r} between the bounding boxes along X's up axis, documented {it['ct'] / 2!r}",
+            oracle("gap", f"`on <Object>` leaves a gap of {gap!r} between the bounding boxes along the normal of X's face, documented {it['ct'] / 2!r}",
                    gap=gap, documented=it["ct"] / 2)
         bl = [dot(ax, sub(bp, ego_i["pos"])) for ax in axes]
-        if abs(bl[0]) > job["ego"]["dims"][0] / 2 + 1e-6 or abs(bl[1]) > job["ego"]["dims"][1] / 2 + 1e-6:
-            oracle("on", "`on <Object>`: the base point is not over X's top face", impl=bl)
+        if any(abs(bl[j]) > job["ego"]["dims"][j] / 2 + 1e-6 for j in range(3) if j != a):
+            oracle("on", "`on <Object>`: the base point is not over X's face", impl=bl)
         c.hist("on:object:" + ("default-base" if it["base"] is None else "base"))
         return ego_nontrivial(job)
     if k == "onpt":
@@ -972,6 +980,10 @@ def main():
             c.sample(dict(item=it, ego=job["ego"], model_position=m[4:7] if it["kind"] == "dir" else m[0:3],
                           impl_position=obs["objects"][str(it["vid"])]["pos"]), limit=4)
     c.cov["programs"] = len(jobs)
+    if os.environ.get("VERIF_C07_DEBUG"):
+        import collections
+        for (kd, wh), n in collections.Counter((v[0], v[1][:140]) for v in c.violations).most_common():
+            print("DEBUG", n, kd, wh)
     c.cov["trusted_base"] += ["axiom: ClassicalDedekindReals.sig_forall_dec", "axiom: FunctionalExtensionality.functional_extensionality_dep",
                               "(the three axioms of Coq's classical Dedekind reals, as printed by Print Assumptions for every C07 theorem)"]
     c.assumptions += [
